@@ -23,7 +23,7 @@ pub fn internal_mode(mode: &str, _args: &[String]) -> i32 {
         // sensitivity self-test of the C14 oracles (mutant codecs, projection edits)
         "codec-selftest" => {
             framework::install_quiet_panic_hook();
-            engine_codec::selftest()
+            engine_codec::selftest() + prop_c15::selftest()
         }
         _ => {
             eprintln!("unknown mode {mode}");
